@@ -223,6 +223,18 @@ def gen_jpeg(ctx, rng, nrng, n, notes):
             else:
                 variants.append(mutate_bytes(rng, raw, ["truncate", "truncate", "byte", "bit", "multi",
                                                         "extend", "delete", "insert"]))
+        # field-targeted: frame-header (SOF) height / width set to boundary values
+        sof = max(raw.find(b"\xff\xc0"), raw.find(b"\xff\xc2"))
+        if sof >= 0 and len(raw) > sof + 9 and rng.random() < 0.5:
+            for _ in range(2):
+                hv = rng.choice([0, 1, 0x4000, 0x7FFF, 0xFFFF, None])
+                wv = rng.choice([0, 1, 0x4000, 0x7FFF, 0xFFFF, None])
+                b = bytearray(raw)
+                if hv is not None:
+                    b[sof + 5:sof + 7] = hv.to_bytes(2, "big")
+                if wv is not None:
+                    b[sof + 7:sof + 9] = wv.to_bytes(2, "big")
+                variants.append(("sof-dims", bytes(b)))
         for kind, buf in variants:
             rq = req
             if rng.random() < 0.06:
